@@ -145,6 +145,7 @@ func runC16(c *Ctx) {
 	{
 		idx := map[*types.Var]string{}
 		name := map[*types.Var]string{}
+		rowSeen := map[*types.Var]int{}
 		for _, g := range guardedBy {
 			fv := p.Field(g.short, g.typ, g.field)
 			p.Field(g.short, g.typ, g.mutex)
@@ -187,6 +188,13 @@ func runC16(c *Ctx) {
 					kind = "write"
 				}
 				c.Ob("C16-D1", key, fa.Instr.Pos(), good, kind+" of "+name[fa.Field]+" without "+lock+" ("+detail+"): a concurrent exported call races with it")
+				rowSeen[fa.Field]++
+			}
+		}
+		// every row of the table must have matched something: a row without instances is checked vacuously
+		for _, g := range guardedBy {
+			if rowSeen[p.Field(g.short, g.typ, g.field)] == 0 {
+				c.Undecided("C16-D1: no access of %s.%s found (row of the guarded-by table matches nothing)", g.typ, g.field)
 			}
 		}
 	}
